@@ -57,6 +57,10 @@ CLAIMED = {
             "Static, history-independent necessary conditions: tablet_list is mutated only by add_tablet - through exactly one drain then one insert on every path - and by maintenance; range bounds are immutable; the two overlap bounds of insert are the very predicates the lookup uses (t.last < x / t.first <= x instantiated at new.first / new.last) and drain(left..right) precedes insert(left); a payload is accepted only where last > first; per-DC replica lists are filled from the full list; unresolvable tablets are dropped and the unknown-replica flags can only be raised by add_tablet. The invariant over histories as such is not enumerated.",
             "Trusts rustc MIR; the rule compares siblings inside the crate rather than a frozen table.",
             "DESIGN.md §3 C15"),
+    "C16": ("MIR analysis of macro-GENERATED code: a fixed family of derived structs is compiled under the fact driver; literal-arm to field/type tables, dataflow on the visited-flag accounting, positional tables of the ordered flavor",
+            "Static, wiring of the generated code only: for 14 structs covering flavor x rename x skip x flatten (two levels) x default_when_null x allow_missing x forbid_excess x skip_name_checks, every by-name arm selected by the literal L (de)serializes / type-checks exactly the field whose declared CQL name is L with its declared type, and the value decoded under L lands in that field; by-name row serializers report Done only where remaining_count == 0 and decrement it once per field under the visited flag; the ordered flavor serializes field i under expected name i with ENFORCE_NAME matching skip_name_checks. Behaviour under all permutations / missing / extra patterns needs execution and is not decided.",
+            "Trusts rustc MIR; the family is a fixed sample; the sidecar table mirrors its declarations.",
+            "DESIGN.md §3 C16"),
     "C17": ("MIR abstract-state dataflow over ColumnType/NativeType/CollectionType discriminants: may-return-Ok shape sets of every serialize/type_check impl vs. a reference matrix; dominance/cut rules on add_value and TypedRowIterator::new",
             "Static, whole matrix at once: for each of the ~55 SerializeValue and ~60 DeserializeValue impls of scylla-cql-core the exact set of column-type shapes under which serialize / type_check can return Ok is extracted (through helper gates, delegations and `?`), compared cell by cell with the documented matrix and between the two directions; no CellWriter call is reachable under a rejected shape; add_value's error edge restores the pre-serialisation length and element_count moves only on the Ok edge; TypedRowIterator is only built after R::type_check succeeded. Value-dependent checks inside dynamic CqlValue serialisation (e.g. UDT field-name accounting) are not decided.",
             "Trusts rustc MIR; reference matrix transcribed from docs/source/data-types; third-party impls out of scope.",
